@@ -37,7 +37,7 @@ const RAW_OPS = {};
 module.exports = {OPS, RAW_OPS, enc_str, dec_str, enc_list, dec_list, enc_table, dec_table, enc_bool, enc_opt_list, repo};
 
 async function main() {
-    for (const extra of ['impl_js_csv.js', 'impl_js_engine.js']) {
+    for (const extra of ['impl_js_csv.js', 'impl_js_engine.js', 'impl_js_translate.js']) {
         const p = path.join(__dirname, extra);
         if (fs.existsSync(p)) require(p);
     }
